@@ -74,6 +74,7 @@ func Harness_C14_fire() {
 		pre = append(pre, verifDocSlot(db, i))
 	}
 	t0 := nowAsExpiry()
+	verifTimerFiresAllowed = true
 	env.b.expManager.runExpiry()
 	t1 := nowAsExpiry()
 	em := env.b.expManager
